@@ -53,16 +53,27 @@ def HState.init (m : NsMap) : HState :=
 /-- result of a method: calls issued so far, then state or exception -/
 abbrev R := List Call × Except Err HState
 
-/-- `add_namespace(uri)` on `self.ns_map` -/
+/-- `add_namespace(uri)` on `self.ns_map` (`prefixed=False`) -/
 def addNamespace (env : NsEnv) (uri : Option Str) (m : NsMap) : NsMap :=
   match uri with
   | none => m
   | some u => if !u.isEmpty && !prefixExists u m then (generatePrefix env u m).2 else m
 
-/-- `for name in self.attrs: self.add_namespace(name[0])` -/
+/-- `any(ns == uri for prefix, ns in self.ns_map.items() if prefix)`: the uri is bound
+to an actual prefix (the default namespace does not qualify attributes) -/
+def prefixedExists (uri : Str) (m : NsMap) : Bool :=
+  m.any (fun e => (match e.1 with | some p => !p.isEmpty | none => false) && e.2 = uri)
+
+/-- `add_namespace(uri, prefixed=True)` -/
+def addNamespaceP (env : NsEnv) (uri : Option Str) (m : NsMap) : NsMap :=
+  match uri with
+  | none => m
+  | some u => if !u.isEmpty && !prefixedExists u m then (generatePrefix env u m).2 else m
+
+/-- `for name in self.attrs: self.add_namespace(name[0], prefixed=True)` -/
 def addAttrNamespaces (env : NsEnv) : List (EName × Option Str) → NsMap → NsMap
   | [], m => m
-  | (n, _) :: r, m => addAttrNamespaces env r (addNamespace env n.1 m)
+  | (n, _) :: r, m => addAttrNamespaces env r (addNamespaceP env n.1 m)
 
 /-- `reset_default_namespace()` (pending tag known to be set) -/
 def resetDefaultNamespace (tag : EName) (m : NsMap) : NsMap :=
@@ -133,8 +144,7 @@ def hSetData (env : NsEnv) (v : Val) (s : HState) : R :=
     match val with
     | some x =>
       if x.isEmpty then (c1, .ok { s1 with inTail := true })
-      else if !s1.inTail then (c1 ++ [Call.chars x], .ok { s1 with inTail := true })
-      else (c1, .ok { s1 with tail := some x, inTail := true })
+      else (c1 ++ [Call.chars x], .ok { s1 with inTail := true })
     | none => (c1, .ok { s1 with inTail := true })
 
 /-- `EventHandler.end_tag(qname)` -/
